@@ -1467,11 +1467,11 @@ int EGLPNUM_TYPENAME_ILLlib_delrows (
 				bok = 0;
 				break;
 			}
-			if (C && EGLPNUM_TYPENAME_EGlpNumIsLess (EGLPNUM_TYPENAME_DFEAS_TOLER, C->pi[j]))
+			/* the cached solution stays optimal only if the deleted row has a zero
+			 * dual value; the sign does not matter (p->basis need not be the basis
+			 * of the cached solution any more, e.g. after QSload_basis) */
+			if (C && EGLPNUM_TYPENAME_EGlpNumIsNeqqZero (C->pi[j]))
 			{
-/*
-                QSlog("XXXX: Postive pi (%f) at basic row", C->pi[j]);
-*/
 				cok = 0;
 			}
 		}
